@@ -213,7 +213,7 @@ class Recipe:
         self.rng = rng
         feats = ['case', 'blanks', 'tabs', 'cont5', 'amp', 'ccomment',
                  'dollar', 'message', 'numbers', 'shorthand', 'delims',
-                 'nofinalnl', 'indent']
+                 'nofinalnl', 'indent', 'rho-any']
         if only is not None:
             self.on = set(only)
         else:
@@ -250,6 +250,10 @@ def atom_text(atom, kind, recipe, block):
             text = text.replace(bare, respell(bare, rng, 'python'))
         elif kind == 'rho':
             text = respell_rho(text, rng)
+    if 'rho-any' in recipe.on and kind == 'rho' and rng.random() < 0.6:
+        # any spelling of the same value, also outside C09's class (the
+        # outputs are then compared by meaning, see semantic_view)
+        text = respell(text, rng, rng.choice(['python', 'fortran']))
     fld = recipe.fortran_field
     if fld is not None:
         hit = ((fld == 'surface' and block == 's' and kind == 'num') or
@@ -417,3 +421,43 @@ def first_difference(out_a, out_b, fortran=False):
             return {'index': k, 'a': ta[lo:k + 4], 'b': tb[lo:k + 4]}
     return {'index': min(len(ta), len(tb)), 'a': ta[-6:], 'b': tb[-6:],
             'length': (len(ta), len(tb))}
+
+
+def semantic_view(output):
+    '''Meaning of a written file up to the naming of compositions:
+    geometry tokens, volume -> (material, density value), and
+    (material, density value) -> composition body.  Returns None if a
+    GEOMCOMP name is undefined or two compositions of one (material, value)
+    differ.'''
+    from . import t4file
+    t4 = t4file.parse(output)
+    geom = []
+    for sid in t4.surf_order:
+        srf = t4.surfs[sid]
+        geom.append(('S', sid, srf.type, tuple(srf.params), srf.tr))
+    for tid, vals in sorted(t4.transforms.items()):
+        geom.append(('T', tid, tuple(vals)))
+    for vid in t4.volu_order:
+        vol = t4.volus[vid]
+        geom.append(('V', vid, tuple(vol.plus), tuple(vol.minus), vol.op,
+                     vol.fictive, vol.comment))
+    comps = {}
+    for comp in t4.compositions:
+        key = matref.parse_comp_name(comp['name'])
+        body = (comp['kind'],
+                None if comp['density'] is None
+                else matref.fortran_float(comp['density']),
+                comp['nb_atom'],
+                tuple((n, matref.fortran_float(v)) for n, v in comp['items']))
+        if key in comps and comps[key] != body:
+            return None
+        comps[key] = body
+    assoc = {}
+    written = {comp['name'] for comp in t4.compositions}
+    for name, _n, ids in t4.geomcomp:
+        key = matref.parse_comp_name(name)
+        if t4.has_compo and name not in written:
+            return None          # GEOMCOMP names an undefined composition
+        for vid in ids:
+            assoc[vid] = key
+    return geom, assoc, comps, tuple(t4.bc)
